@@ -187,7 +187,7 @@ class _Builder:
         for i, a in enumerate(t["args"]):
             blk["stmts"].append(_assign(_place(lmap(i + 1)), {"k": "use", "op": a}, line))
         target, dest = t["t"], t["dest"]
-        blk["term"] = {"k": "goto", "t": bmap(0), "line": line, "exp": t.get("exp", False), "inlined_call": callee.path}
+        blk["term"] = {"k": "goto", "t": bmap(0), "line": line, "exp": t.get("exp", False), "inlined_call": callee.path, "cont": target}
         for nb in new:
             b2 = self.j["blocks"][nb]
             tt = b2["term"]
@@ -243,7 +243,7 @@ class _Builder:
             fix(self.j["blocks"][nb])
         for k, arg in enumerate(args):
             blk["stmts"].append(_assign(_place(up_base + k), {"k": "use", "op": arg}, line))
-        blk["term"] = {"k": "goto", "t": bmap(0), "line": line, "exp": t.get("exp", False), "inlined_call": callee.path}
+        blk["term"] = {"k": "goto", "t": bmap(0), "line": line, "exp": t.get("exp", False), "inlined_call": callee.path, "cont": a.ready_bb}
         for nb in new:
             b2 = self.j["blocks"][nb]
             tt = b2["term"]
